@@ -67,6 +67,59 @@ Proof.
   destruct (sp_kind sp); try apply X. contradiction.
 Qed.
 
+(* ---- validity checking: which sources have it on, and what that means for what is served.
+   A source whose specification says nothing about check_validity (the ordinary way to configure one) has
+   validity checking ON in a store whose own check_validity is on, whatever its kind and however it is handed
+   to the store; only a remote source described by a dictionary can have it switched off. *)
+Theorem validity_switch ns sp : eff_cv ns sp = cfg_cv ns sp.
+Proof. apply eff_cv_cfg. Qed.
+
+Theorem validity_default_on ns sp : sp_cv sp = None -> sp_scv sp = true -> eff_cv ns sp = true.
+Proof.
+  intros Hc Hs. unfold eff_cv. rewrite Hc, Hs. destruct (sp_kind sp), ns, (sp_imp sp); reflexivity.
+Qed.
+
+Theorem validity_off_only_remote_dict ns sp :
+  eff_cv ns sp = false ->
+  sp_kind sp = KRemote /\ ns = false /\ (sp_cv sp = Some false \/ (sp_imp sp = true /\ sp_scv sp = false)).
+Proof.
+  unfold eff_cv. destruct (sp_kind sp); try discriminate. destruct ns; [discriminate|].
+  destruct (sp_imp sp), (sp_scv sp); cbn [andb negb]; destruct (sp_cv sp) as [[|]|]; try discriminate; intros _; auto.
+Qed.
+
+(* while validity checking is on for the source, a successful load serves no entity all of whose descriptors in the
+   document are past their validUntil, and an EntitiesDescriptor past its own validUntil is a failed load *)
+Theorem expired_entity_not_served fl ns sp now p sg m id :
+  load_static fl ns sp now (FBody p sg) = Some m -> cfg_cv ns sp = true ->
+  (forall es, doc_says true now p = Some es -> forall e, In e es -> e_id e = id -> expired now (e_vu e) = true) ->
+  lookup id m = None.
+Proof.
+  unfold load_static. rewrite parse_doc_says, eff_cv_cfg. intros H Hcv Hexp. rewrite Hcv in H.
+  destruct (doc_says true now p) as [es|] eqn:Ed; [|discriminate].
+  destruct (sig_gate _ _ _ _ p sg); [|discriminate]. inversion H; subst. clear H.
+  apply view_none. intros e Hin Hid [Hcur _].
+  specialize (Hexp es eq_refl e Hin Hid). unfold expired in Hexp.
+  destruct (e_vu e) as [t|] eqn:Ev; [|discriminate].
+  specialize (Hcur eq_refl t Ev). apply Z.ltb_lt in Hexp. lia.
+Qed.
+
+(* (a schema-invalid EntitiesDescriptor says nothing at all: NotValid is swallowed before validUntil is looked at) *)
+Theorem expired_group_adds_nothing fl ns sp now vu es sg m :
+  cfg_cv ns sp = true -> expired now vu = true ->
+  load_static fl ns sp now (FBody (D (Group vu es)) sg) = Some m -> m = [] /\ schema_check es = CkNotValid.
+Proof.
+  intros Hcv Hexp. unfold load_static. rewrite eff_cv_cfg, Hcv. cbn [parse andb]. rewrite Hexp.
+  destruct (schema_check es); try discriminate.
+  destruct (sig_gate _ _ _ _ _ sg); [|discriminate]. intros H; inversion H; auto.
+Qed.
+Theorem expired_group_fails fl ns sp now vu es sg :
+  cfg_cv ns sp = true -> expired now vu = true -> schema_check es = CkOk ->
+  load_static fl ns sp now (FBody (D (Group vu es)) sg) = None.
+Proof.
+  intros Hcv Hexp Hs. destruct (load_static fl ns sp now (FBody (D (Group vu es)) sg)) as [m|] eqn:E; [|reflexivity].
+  destruct (expired_group_adds_nothing _ _ _ _ _ _ _ _ Hcv Hexp E) as [_ H]. rewrite Hs in H. discriminate.
+Qed.
+
 (* where a certificate is configured, a metadata document is loaded only if its signature verifies —
    signed or not, for every kind of static source (fafdf54c, a8da97db) *)
 Theorem cert_needs_valid ns sp now d sg m :
@@ -287,11 +340,11 @@ Definition bPo := BINDING_HTTP_POST.
 Definition idp_ent (id loc binding : string) : ent :=
   Ent id None [Role K_IDPSSO [NS_SAML2P] [Svc N_SSO binding loc None] [Key (Some "signing") "idp"] []] false [] [].
 Definition w_inline : srcspec :=
-  {| sp_kind := KInline; sp_key := ""; sp_cert := false; sp_cv := true; sp_node := None; sp_period := 43200 |}.
+  {| sp_kind := KInline; sp_key := ""; sp_cert := false; sp_cv := None; sp_node := None; sp_period := 43200; sp_scv := true; sp_imp := false |}.
 Definition w_remote_cert : srcspec :=
-  {| sp_kind := KRemote; sp_key := "http://md.example.org/s1"; sp_cert := true; sp_cv := true; sp_node := None; sp_period := 43200 |}.
+  {| sp_kind := KRemote; sp_key := "http://md.example.org/s1"; sp_cert := true; sp_cv := None; sp_node := None; sp_period := 43200; sp_scv := true; sp_imp := false |}.
 Definition w_mdq (cert : bool) : srcspec :=
-  {| sp_kind := KMdq; sp_key := "http://mdq.example.org/q1"; sp_cert := cert; sp_cv := true; sp_node := None; sp_period := 3600 |}.
+  {| sp_kind := KMdq; sp_key := "http://mdq.example.org/q1"; sp_cert := cert; sp_cv := None; sp_node := None; sp_period := 3600; sp_scv := true; sp_imp := false |}.
 Definition docA := FBody (D (Single (idp_ent "urn:e1" "https://a.example.org/sso" bRd))) Unsigned.
 Definition docB := FBody (D (Single (idp_ent "urn:e1" "https://b.example.org/sso" bPo))) Unsigned.
 
@@ -325,7 +378,7 @@ Definition witness5 : list op :=
 
 (* 6: an inline source configured as list-style item (text, cert): a tampered signature is not noticed *)
 Definition w_inline_cert : srcspec :=
-  {| sp_kind := KInline; sp_key := "inline:1"; sp_cert := true; sp_cv := true; sp_node := None; sp_period := 43200 |}.
+  {| sp_kind := KInline; sp_key := "inline:1"; sp_cert := true; sp_cv := None; sp_node := None; sp_period := 43200; sp_scv := true; sp_imp := false |}.
 Definition witness6 : list op :=
   [OLoad true w_inline_cert (FBody (D (Single (idp_ent "urn:e1" "https://a.example.org/sso" bRd))) SigTampered);
    OQuery (QSso "urn:e1" None)].
@@ -342,12 +395,12 @@ Definition fails (fl : flags) (h : list op) : Prop := ~ spec (rinit T0) h (run f
 Ltac refute := unfold fails; intros H; apply spec_b_iff in H; vm_compute in H; discriminate.
 
 (* exactly one repair reverted *)
-Definition rev_fall := {| f_fall := true; f_last := false; f_unsigned := false; f_mdq := false; f_inline := false; f_group := false |}.
-Definition rev_last := {| f_fall := false; f_last := true; f_unsigned := false; f_mdq := false; f_inline := false; f_group := false |}.
-Definition rev_unsigned := {| f_fall := false; f_last := false; f_unsigned := true; f_mdq := false; f_inline := false; f_group := false |}.
-Definition rev_mdq := {| f_fall := false; f_last := false; f_unsigned := false; f_mdq := true; f_inline := false; f_group := false |}.
-Definition rev_group := {| f_fall := false; f_last := false; f_unsigned := false; f_mdq := false; f_inline := false; f_group := true |}.
-Definition rev_inline := {| f_fall := false; f_last := false; f_unsigned := false; f_mdq := false; f_inline := true; f_group := false |}.
+Definition rev_fall := {| f_fall := true; f_last := false; f_unsigned := false; f_mdq := false; f_inline := false; f_group := false; f_gaps := [] |}.
+Definition rev_last := {| f_fall := false; f_last := true; f_unsigned := false; f_mdq := false; f_inline := false; f_group := false; f_gaps := [] |}.
+Definition rev_unsigned := {| f_fall := false; f_last := false; f_unsigned := true; f_mdq := false; f_inline := false; f_group := false; f_gaps := [] |}.
+Definition rev_mdq := {| f_fall := false; f_last := false; f_unsigned := false; f_mdq := true; f_inline := false; f_group := false; f_gaps := [] |}.
+Definition rev_group := {| f_fall := false; f_last := false; f_unsigned := false; f_mdq := false; f_inline := false; f_group := true; f_gaps := [] |}.
+Definition rev_inline := {| f_fall := false; f_last := false; f_unsigned := false; f_mdq := false; f_inline := true; f_group := false; f_gaps := [] |}.
 
 (* the code before the repairs violated the property (and reverting the one commit is enough) *)
 Lemma fallthrough_v0_refuted : fails v0 witness1 /\ fails rev_fall witness1. Proof. split; refute. Qed.
@@ -384,7 +437,7 @@ Definition sp_ent : ent :=
        Role K_SPSSO ["urn:oasis:names:tc:SAML:1.1:protocol"] [Svc N_ACS bPo "https://sp.example.org/acs11" (Some "0")] [] []]
       false [(ENTITY_CATEGORY, ["http://cat.example.org/1"])] [Reg "http://ra1.example.org" None [("en", "http://ra.example.org/pol1")]].
 Definition w_file : srcspec :=
-  {| sp_kind := KFile; sp_key := "/md/s2.xml"; sp_cert := false; sp_cv := true; sp_node := None; sp_period := 43200 |}.
+  {| sp_kind := KFile; sp_key := "/md/s2.xml"; sp_cert := false; sp_cv := None; sp_node := None; sp_period := 43200; sp_scv := true; sp_imp := false |}.
 Definition good_history : list op :=
   [OLoad false w_inline docA;
    OLoad false w_file (FBody (D (Group None [sp_ent; idp_ent "urn:e3" "https://c.example.org/sso" bRd])) Unsigned);
@@ -414,3 +467,84 @@ Example good_history_out :
    AEnt false [Role K_IDPSSO [NS_SAML2P] [Svc N_SSO bRd "https://a.example.org/sso" None] [Key (Some "signing") "idp"] []];
    ANone; AKeys ["urn:e1"; "urn:e2"; "urn:e3"]].
 Proof. vm_compute. reflexivity. Qed.
+
+(* ------------------------------------------------------------------ validity checking by default (round 5)
+   A remote source configured the ordinary way ({"url": ...}: nothing said about check_validity) in a store whose
+   validity checking is on; the document holds an entity past its validUntil beside a current one.  The code serves
+   the current one only; an implementation that served both (check_validity arriving as None instead of the
+   default) fails the spec, and so does one that loads an EntitiesDescriptor past its own validUntil. *)
+Definition w_remote_plain : srcspec :=
+  {| sp_kind := KRemote; sp_key := "http://md.example.org/s1"; sp_cert := false; sp_cv := None; sp_node := None;
+     sp_period := 43200; sp_scv := true; sp_imp := true |}.
+Definition old_ent (id : string) : ent :=
+  Ent id (Some 1699999000%Z) [Role K_IDPSSO [NS_SAML2P] [Svc N_SSO bRd "https://old.example.org/sso" None] [] []] false [] [].
+Definition fed_doc := FBody (D (Group None [old_ent "urn:e1"; idp_ent "urn:e2" "https://a.example.org/sso" bRd])) Unsigned.
+Definition old_fed := FBody (D (Group (Some 1699999995%Z) [idp_ent "urn:e3" "https://c.example.org/sso" bRd])) Unsigned.
+Definition validity_history : list op :=
+  [OLoad false w_remote_plain fed_doc; OQuery QKeys; OQuery (QSso "urn:e1" None);
+   OLoad false w_remote_plain old_fed; OQuery QKeys].
+
+Example validity_history_out :
+  run cur (init T0) validity_history = [AFlag true; AKeys ["urn:e2"]; AUnknown; AFlag false; AKeys ["urn:e2"]].
+Proof. vm_compute. reflexivity. Qed.
+Example validity_default_teeth_entity :
+  spec_b (rinit T0) validity_history
+    [AFlag true; AKeys ["urn:e1"; "urn:e2"]; ASvcs [Svc N_SSO bRd "https://old.example.org/sso" None]; AFlag false; AKeys ["urn:e1"; "urn:e2"]] = false.
+Proof. vm_compute. reflexivity. Qed.
+Example validity_default_teeth_group :
+  spec_b (rinit T0) validity_history [AFlag true; AKeys ["urn:e2"]; AUnknown; AFlag true; AKeys ["urn:e3"]] = false.
+Proof. vm_compute. reflexivity. Qed.
+(* the store-wide switch reaches a dictionary item through imp() only, and overrides what the item says *)
+Example validity_store_switch :
+  let sp b i := {| sp_kind := KRemote; sp_key := "u"; sp_cert := false; sp_cv := Some true; sp_node := None;
+                   sp_period := 43200; sp_scv := b; sp_imp := i |} in
+  (eff_cv false (sp false true), eff_cv false (sp false false), eff_cv true (sp false true), eff_cv false (sp true true))
+  = (false, true, true, true).
+Proof. reflexivity. Qed.
+
+(* ------------------------------------------------------------------ the process time zone (round 5, finding C11-F8)
+   MetaDataMDX._fetch_metadata computes the expiration date with time_util.add_duration, which sends the broken-down
+   UTC time through the LOCAL calendar (time.localtime(time.mktime(...))).  In a zone with daylight saving an instant
+   whose UTC reading falls into the hour that the local calendar skips comes back one hour later: the cached entry
+   is served, without a new query, for an hour after its freshness period has run out.  [cur] is the code in a zone
+   without such gaps (f_gaps = []): everything proved for [cur] is proved under that guard. *)
+Lemma in_zone_nil : in_zone [] = cur.
+Proof. reflexivity. Qed.
+
+Lemma zone_fix_outside gaps t :
+  (forall a len sh, In (a, len, sh) gaps -> (t < a \/ a + len <= t)%Z) -> zone_fix gaps t = t.
+Proof.
+  induction gaps as [|[[a len] sh] r IH]; intros H; cbn [zone_fix]; [reflexivity|].
+  destruct (H a len sh (or_introl eq_refl)) as [Hl|Hr].
+  - replace (a <=? t)%Z with false by (symmetry; apply Z.leb_gt; lia). cbn [andb]. apply IH. intros; apply (H a0 len0 sh0). right; assumption.
+  - replace (t <? a + len)%Z with false by (symmetry; apply Z.ltb_ge; lia). rewrite andb_false_r. apply IH. intros; apply (H a0 len0 sh0). right; assumption.
+Qed.
+
+(* a fetch whose expiration date does not fall into a gap is the fetch of the gap-free code *)
+Theorem mdx_fetch_zone_outside g x now srv e :
+  zone_fix g (now + x_period x) = (now + x_period x)%Z -> mdx_fetch (in_zone g) x now srv e = mdx_fetch cur x now srv e.
+Proof. intros H. unfold mdx_fetch. cbn [f_mdq f_group f_gaps in_zone cur]. rewrite H. reflexivity. Qed.
+
+(* US Pacific time, 2024-03-10: 02:00 - 03:00 does not exist; expressed over UTC readings *)
+Definition Tz := 1710034200%Z.                             (* 2024-03-10T01:30:00Z *)
+Definition us_gap : list (Z * Z * Z) := [(1710036000, 3600, 3600)%Z].
+Definition zone_witness : list op :=
+  [OServer [("urn:e1", FBody (D (Single (idp_ent "urn:e1" "https://first.example.org/sso" bRd))) Unsigned)];
+   OLoad false (w_mdq false) FMissing; OQuery (QSso "urn:e1" None);
+   OServer [("urn:e1", FBody (D (Single (idp_ent "urn:e1" "https://second.example.org/sso" bRd))) Unsigned)];
+   OTick 5400;                                             (* 03:00Z: half an hour after the entry ran out *)
+   OQuery (QSso "urn:e1" None)].
+
+Example zone_witness_out :
+  run (in_zone us_gap) (init Tz) zone_witness
+  = [AFlag true; ASvcs [Svc N_SSO bRd "https://first.example.org/sso" None];
+     ASvcs [Svc N_SSO bRd "https://first.example.org/sso" None]]
+  /\ run cur (init Tz) zone_witness
+  = [AFlag true; ASvcs [Svc N_SSO bRd "https://first.example.org/sso" None];
+     ASvcs [Svc N_SSO bRd "https://second.example.org/sso" None]].
+Proof. split; vm_compute; reflexivity. Qed.
+
+Theorem c11_zone_gap_refuted : ~ spec (rinit Tz) zone_witness (run (in_zone us_gap) (init Tz) zone_witness).
+Proof. intros H; apply spec_b_iff in H; vm_compute in H; discriminate. Qed.
+Theorem c11_zone_gap_refuted_ex : exists g now h, ~ spec (rinit now) h (run (in_zone g) (init now) h).
+Proof. exists us_gap, Tz, zone_witness. exact c11_zone_gap_refuted. Qed.
